@@ -49,3 +49,47 @@ Theorem C09_bad_expr : forall file b expr,
   line_count file b = Err E_LINE_COUNT.
 Proof. exact line_count_bad_expr. Qed.
 Print Assumptions C09_bad_expr.
+
+(* A block without a line-count attribute is never reported by this rule. *)
+Theorem C09_absent file b :
+  get_attr (T "line-count") (b_attrs b) = None -> line_count file b = Ok [].
+Proof. exact (line_count_absent file b). Qed.
+Print Assumptions C09_absent.
+
+(* The five operators are exactly the mathematical comparisons on natural numbers. *)
+Theorem C09_comparison op a n :
+  cop_holds op a n = true <->
+  match op with OLt => a < n | OLe => a <= n | OEq => a = n | OGe => n <= a | OGt => n < a end.
+Proof. exact (cop_holds_iff op a n). Qed.
+Print Assumptions C09_comparison.
+
+(* A bound of 2^64 or more is rejected as malformed, never wrapped around. *)
+Theorem C09_bound_fits_u64 expr op n :
+  parse_constraint expr = Some (op, n) -> n < 18446744073709551616.
+Proof. exact (parse_constraint_bound expr op n). Qed.
+Print Assumptions C09_bound_fits_u64.
+
+(* With a well-formed rule the block is silent exactly when the comparison holds for the number of non-blank content lines (both directions). *)
+Theorem C09_silent_iff file b expr op n content sev :
+  get_attr (T "line-count") (b_attrs b) = Some expr ->
+  parse_constraint expr = Some (op, n) ->
+  content_of file b = Ok content ->
+  sev_of (b_attrs b) = Ok sev ->
+  (line_count file b = Ok [] <->
+   match op with
+   | OLt => spec_count content < n | OLe => spec_count content <= n
+   | OEq => spec_count content = n
+   | OGe => n <= spec_count content | OGt => n < spec_count content end).
+Proof. exact (line_count_silent_iff file b expr op n content sev). Qed.
+Print Assumptions C09_silent_iff.
+
+(* A broken severity attribute cannot hide a size violation: the run stops with the severity error. *)
+Theorem C09_bad_severity_fails_closed file b expr op n content e :
+  get_attr (T "line-count") (b_attrs b) = Some expr ->
+  parse_constraint expr = Some (op, n) ->
+  content_of file b = Ok content ->
+  sev_of (b_attrs b) = Err e ->
+  cop_holds op (spec_count content) n = false ->
+  line_count file b = Err e.
+Proof. exact (line_count_bad_severity file b expr op n content e). Qed.
+Print Assumptions C09_bad_severity_fails_closed.
